@@ -8,14 +8,32 @@ def _eq(c, a, b):
     return lift(c.engine.eq(a, b), TBool)
 
 
+# the serialised fields of Meta, fixed here from the statement's "fields that are serialised" as of the pinned tree (so that a
+# field silently dropped from to_dict() is a loss, not a smaller projection): exact for flags and counts, modulo falsiness
+# (None / "" are one value on disk) for the textual ones
+META_EXACT = ("isdir", "size", "nfiles", "isexec")
+META_TEXT = ("version_id", "etag", "checksum", "md5", "remote")
+
+
+def meta_fields_same(c, a, b):
+    T = lambda x: lift(c.engine.truth(x), TBool)  # noqa: E731
+    return And(*[getattr(a, f) == getattr(b, f) for f in META_EXACT],
+               *[And(Implies(T(getattr(a, f)), getattr(a, f) == getattr(b, f)), Implies(~T(getattr(a, f)), ~T(getattr(b, f)))) for f in META_TEXT])
+
+
+def _meta_native(a, b):
+    return all(getattr(a, f) == getattr(b, f) for f in META_EXACT) and all((getattr(a, f) or None) == (getattr(b, f) or None) for f in META_TEXT)
+
+
 harness(
     "dvc_data.hashfile.meta", "meta_roundtrip",
-    "def h(m):\n    d = m.to_dict()\n    m2 = Meta.from_dict(d)\n    return d, m2.to_dict()\n",
+    "def h(m):\n    d = m.to_dict()\n    m2 = Meta.from_dict(d)\n    return d, m2.to_dict(), m2\n",
     params=dict(m=Meta),
-    ensures=lambda c: _eq(c, c.result[0], c.result[1]),
-    native_check=lambda a, r: r[0] == r[1],
+    ensures=lambda c: And(_eq(c, c.result[0], c.result[1]), meta_fields_same(c, c.m, c.result[2])),
+    native_check=lambda a, r: r[0] == r[1] and _meta_native(a["m"], r[2]),
     props=["C20"],
-    doc="Meta.from_dict(m.to_dict()).to_dict() == m.to_dict() for every m (all optional-field combinations, zero sizes, false-y values)",
+    doc="Meta.from_dict(m.to_dict()) equals m on every serialised field (flags and counts exactly, texts modulo falsiness), and "
+        "to_dict agrees, for every m (all optional-field combinations, zero sizes, false-y values)",
 )
 
 harness(
@@ -47,4 +65,16 @@ harness(
     props=["C20"],
     doc="projection (meta dict or {}, hash dict or {}, loaded) of DataIndexEntry.from_dict(e.to_dict()) equals that of e "
         "(an all-default Meta and an absent one serialise alike: recorded reading of 'same serialisable metadata')",
+)
+
+from pyvc.contracts import contract  # noqa: E402
+
+contract(
+    "dvc_data.index.serialize:write_json",
+    params={},
+    assumed=True, verify=False,
+    bounded=("bounded/index_persist.py", 100, 1500),
+    props=["C20"],
+    doc="[bounded only] the persistent forms (json, diskcache, sqltrie are outside the verifier's reach): JSON file, key-value "
+        "database, SQLite-backed index with commit/close/reopen and a lazily loaded directory object",
 )
